@@ -310,7 +310,15 @@ func (h *H) do(method, path string, o reqOpt) Resp {
 				if i := strings.Index(l, ">"); i > 1 {
 					lu, err := url.Parse(l[1:i])
 					if err == nil {
-						out.Link = "next(cache=" + h.tk.tokDigest(lu.Query().Get("cache")) + ",page=" + lu.Query().Get("page") + ")"
+						cd := lu.Query().Get("cache")
+						if _, known := h.tk.tokOf[cd]; !known && strings.HasPrefix(path, "/v2/") {
+							// learn the name of the response document the link refers to (a read, changes nothing)
+							repoPath := path[:strings.Index(path, "/referrers/")]
+							if g := h.do("GET", repoPath+"/blobs/"+cd, reqOpt{mode: "get"}); g.Status == 200 {
+								_ = g
+							}
+						}
+						out.Link = "next(cache=" + h.tk.tokDigest(cd) + ",page=" + lu.Query().Get("page") + ")"
 					}
 				}
 			}
@@ -554,10 +562,23 @@ func (h *H) apply(line string) (string, bool) {
 		return r.line(), true
 	case "RAW":
 		// RAW <method> <path> [q=<rawquery>] : router fall-through
-		if len(a) < 2 {
+		if len(a) < 1 {
 			return "bad-op", true
 		}
-		u := a[1]
+		if len(a) < 2 {
+			a = append(a, "")
+		}
+		// digest tokens inside the path are translated
+		segs := strings.Split(a[1], "/")
+		for i, sg := range segs {
+			if strings.Contains(sg, ":") {
+				segs[i] = h.tk.realDigest(sg)
+			}
+		}
+		u := strings.Join(segs, "/")
+		if u == "" {
+			u = "/"
+		}
 		if q := kv(a, "q"); q != "" {
 			u += "?" + q
 		}
